@@ -171,6 +171,24 @@ func C18Witness() *C18Model {
 	return &C18Model{S: s, Shape: "witness", Conds: []C18Cond{{Name: "cnd", Params: []C18Param{{"x", pt(PInt)}}, Expr: "x > 0"}}}
 }
 
+// the tuple-to-userset at various depths of the rewrite (typesystem.flattenUserset must find it)
+func c18PlaceTTU(r *rec.Rand, ttu *Rewrite) *Rewrite {
+	switch r.Intn(6) {
+	case 0:
+		return Union(This(), ttu)
+	case 1:
+		return Inter(This(), ttu)
+	case 2:
+		return Diff(This(), ttu)
+	case 3:
+		return Diff(ttu, This())
+	case 4:
+		return Union(This(), Diff(This(), Inter(ttu, This())))
+	default:
+		return ttu
+	}
+}
+
 // C18Custom builds hand-made shapes.
 func C18Custom(r *rec.Rand) *C18Model {
 	user := TypeDef{Name: "user"}
@@ -226,7 +244,7 @@ func C18Custom(r *rec.Rand) *C18Model {
 			}},
 			{Name: "doc", Rels: []RelDef{
 				{Name: "parent", RW: This(), Restr: []Restr{RObj("folder"), RWild("folder"), RSet("folder", "viewer"), RObj("user")}},
-				{Name: "viewer", RW: Union(This(), TTU("parent", "viewer")), Restr: []Restr{RObj("user")}},
+				{Name: "viewer", RW: c18PlaceTTU(r, TTU("parent", "viewer")), Restr: []Restr{RObj("user")}},
 			}}}
 	case 4: // REFUSED: restrictions naming an undefined condition, type or relation
 		m.Shape = "bad-references"
